@@ -524,7 +524,7 @@ func c11Cases(c *Ctx) []c11Case {
 		}
 	}
 	fams := []string{"uniform", "lognormal", "ramp", "constant", "few", "bimodal-gap", "bimodal-gap", "zeros"}
-	nRandom := c.Pick(2000, 80000)
+	nRandom := c.Pick(2000, 250000)
 	for i := 0; i < nRandom; i++ {
 		fam := fams[r.Intn(len(fams))]
 		n := int(c10LogU(r, 1, 100001))
